@@ -347,6 +347,16 @@ def nullable(toks):
     return True
 
 
+def seg_nullable(seg):
+    """May this segment pattern stand for no path segment at all (DON'T-CARE zone of path mode)?  A segment that opens with
+    `!(...)` may not: like `*`, 'anything but ...' needs something to be (C02: every path segment is matched by exactly one
+    segment pattern)."""
+    seg = norm_seg(seg)
+    if seg and seg[0][0] == 'grp' and seg[0][1] == '!':
+        return False
+    return nullable(seg)
+
+
 def seg3(seg, name, dot, icase, nodotdir, quirks=None, pathseg=True):
     """Three-valued match of one pattern segment against one non-empty path segment."""
     seg = norm_seg(seg)
@@ -414,7 +424,7 @@ def path_match3(toks, path, ps, quirks=None):
     if p_abs != n_abs:
         if n_abs and not p_abs and segs and (implicit or seg_is_gstar(segs[0], ps)):
             return None
-        if n_abs and not p_abs and segs and nullable(norm_seg(segs[0])):
+        if n_abs and not p_abs and segs and seg_nullable(segs[0]):
             # nullable first segment pattern against the empty segment in front of a leading separator
             return None
         return False
@@ -464,7 +474,7 @@ def path_match3(toks, path, ps, quirks=None):
                         k += 1
                     else:
                         return False
-            if may and nullable(norm_seg(seg)) and go(i + 1, j):
+            if may and seg_nullable(seg) and go(i + 1, j):
                 return True
             if j >= nparts:
                 return False
